@@ -114,6 +114,15 @@ class _Canon(ast.NodeTransformer):
 
     def visit_Compare(self, node):
         self.generic_visit(node)
+        # a < b < c  ->  a < b and b < c      (the middle operands are names / constants / attribute or subscript chains of names:
+        # evaluating them twice is the same as once)
+        if len(node.ops) > 1 and all(isinstance(x, (ast.Name, ast.Constant, ast.Attribute, ast.Subscript, ast.expr_context)) for m in node.comparators[:-1] for x in ast.walk(m)):
+            import copy
+            parts, left = [], node.left
+            for op, right in zip(node.ops, node.comparators):
+                parts.append(self.visit_Compare(ast.copy_location(ast.Compare(left=copy.deepcopy(left), ops=[op], comparators=[right]), node)))
+                left = right
+            return ast.copy_location(ast.BoolOp(op=ast.And(), values=parts), node)
         if len(node.ops) == 1:
             op, l, r = node.ops[0], node.left, node.comparators[0]
             # x in [a, b] -> x in (a, b)
@@ -161,6 +170,18 @@ class _Canon(ast.NodeTransformer):
                 else:
                     kws.append(k)
             node.keywords = kws
+        # functools.partial(f, *a, **k)  ->  FunctionContainer(f, *a, **k): both are "call f(*a, **k) later", arguments
+        # evaluated now; the package's own spelling is the canonical one
+        fn_ = node.func
+        if ((isinstance(fn_, ast.Attribute) and fn_.attr == 'partial' and isinstance(fn_.value, ast.Name) and fn_.value.id == 'functools')
+                or (isinstance(fn_, ast.Name) and fn_.id == 'partial')) and node.args:
+            node.func = ast.copy_location(ast.Name(id='FunctionContainer', ctx=ast.Load()), fn_)
+        # x.add_failure_cleanup(FunctionContainer(f, *a, **k))  ->  x.add_failure_cleanup(f, *a, **k)   (what the method builds itself)
+        if isinstance(node.func, ast.Attribute) and node.func.attr in ('add_failure_cleanup', 'add_done_callback') and len(node.args) == 1 and not node.keywords \
+                and isinstance(node.args[0], ast.Call) and isinstance(node.args[0].func, ast.Name) and node.args[0].func.id == 'FunctionContainer' \
+                and node.args[0].args and node.func.attr == 'add_failure_cleanup':
+            inner = node.args[0]
+            node.args, node.keywords = list(inner.args), list(inner.keywords)
         if len(node.keywords) > 1:
             named = [k for k in node.keywords if k.arg is not None]
             star = [k for k in node.keywords if k.arg is None]
@@ -222,6 +243,17 @@ class _Canon(ast.NodeTransformer):
                         s = ast.copy_location(ast.Assign(targets=s.body[0].targets, value=ast.Call(func=ast.Name(id='max', ctx=ast.Load()), args=[l, bound], keywords=[])), s)
                     elif isinstance(r, ast.Name) and r.id == x and ast.dump(l) == ast.dump(bound):    # if b < x: x = b
                         s = ast.copy_location(ast.Assign(targets=s.body[0].targets, value=ast.Call(func=ast.Name(id='min', ctx=ast.Load()), args=[r, bound], keywords=[])), s)
+            # if c: for t in L: A  else: for t in L: B   ->   for t in L: (if c: A else: B)     c loop-invariant: only names/constants
+            # that neither body stores; same target and iterable; no for-else
+            if isinstance(s, ast.If) and len(s.body) == 1 and len(s.orelse) == 1 and isinstance(s.body[0], ast.For) and isinstance(s.orelse[0], ast.For) \
+                    and not s.body[0].orelse and not s.orelse[0].orelse and ast.dump(s.body[0].target) == ast.dump(s.orelse[0].target) \
+                    and ast.dump(s.body[0].iter) == ast.dump(s.orelse[0].iter) and isinstance(s.body[0].iter, (ast.Name, ast.Attribute)) \
+                    and all(isinstance(x, (ast.Name, ast.Constant, ast.Compare, ast.BoolOp, ast.UnaryOp, ast.cmpop, ast.boolop, ast.unaryop, ast.expr_context)) for x in ast.walk(s.test)):
+                tn = {x.id for x in ast.walk(s.test) if isinstance(x, ast.Name)}
+                stored = {x.id for lp in (s.body[0], s.orelse[0]) for x in ast.walk(lp) if isinstance(x, ast.Name) and not isinstance(x.ctx, ast.Load)}
+                if not (tn & stored):
+                    inner = ast.copy_location(ast.If(test=s.test, body=s.body[0].body, orelse=s.orelse[0].body), s)
+                    s = ast.copy_location(ast.For(target=s.body[0].target, iter=s.body[0].iter, body=[inner], orelse=[], type_comment=None), s)
             # if c: A (always leaves the block) else: B   ->   if c: A ; B     (guard-clause form)
             if isinstance(s, ast.If) and s.orelse and _always_leaves(s.body):
                 rest = s.orelse
@@ -411,11 +443,20 @@ class _PureLocals:
             for fn in [n for n in ast.walk(t) if isinstance(n, (ast.FunctionDef, ast.AsyncFunctionDef))]:
                 if any((isinstance(d, ast.Name) and d.id in ('property', 'cached_property')) or (isinstance(d, ast.Attribute) and d.attr in ('cached_property',)) for d in fn.decorator_list):
                     body = [s for s in fn.body if not (isinstance(s, ast.Expr) and isinstance(s.value, ast.Constant))]
+                    if len(body) == 1 and isinstance(body[0], ast.Raise) and 'NotImplementedError' in ast.unparse(body[0]):
+                        continue  # abstract: says nothing about the concrete properties of that name
                     und = None
-                    if len(body) == 1 and isinstance(body[0], ast.Return) and isinstance(body[0].value, ast.Attribute) \
-                            and isinstance(body[0].value.value, ast.Name) and body[0].value.value.id == 'self':
-                        und = body[0].value.attr
-                    props[fn.name] = und if props.get(fn.name, und) == und else None
+                    if len(body) == 1 and isinstance(body[0], ast.Return) and isinstance(body[0].value, ast.Attribute):
+                        chain, e = [], body[0].value
+                        while isinstance(e, ast.Attribute):
+                            chain.append(e.attr)
+                            e = e.value
+                        if isinstance(e, ast.Name) and e.id == 'self':
+                            und = frozenset(chain)
+                    if fn.name in props and props[fn.name] is not None and und is not None:
+                        props[fn.name] = props[fn.name] | und
+                    else:
+                        props[fn.name] = und if fn.name not in props else None
                 if fn.name in ('__init__', '__new__'):
                     continue
                 for x in ast.walk(fn):
@@ -424,26 +465,84 @@ class _PureLocals:
                     elif isinstance(x, ast.AugAssign) and isinstance(x.target, ast.Attribute):
                         rebound.add(x.target.attr)
         cls.REBOUND, cls.PROPS = rebound, props
+        # the same, per family of classes related by inheritance, for attributes reached through `self`:
+        # self.X in class C may only be rebound by methods of C's own family (or through another receiver: OTHER)
+        parent = {}
+
+        def find(a):
+            while parent.setdefault(a, a) != a:
+                parent[a] = parent[parent[a]]
+                a = parent[a]
+            return a
+        fam_rebound, other = {}, set()
+        classes = [c for t in trees for c in ast.walk(t) if isinstance(c, ast.ClassDef)]
+        for c in classes:
+            for b in c.bases:
+                bn = b.id if isinstance(b, ast.Name) else (b.attr if isinstance(b, ast.Attribute) else None)
+                if bn:
+                    parent[find(c.name)] = find(bn)
+        in_class = set()
+        for c in classes:
+            for fn in [n for n in c.body if isinstance(n, (ast.FunctionDef, ast.AsyncFunctionDef))]:
+                in_class.add(id(fn))
+                for x in ast.walk(fn):
+                    tgt = x if isinstance(x, ast.Attribute) and not isinstance(x.ctx, ast.Load) else (x.target if isinstance(x, ast.AugAssign) and isinstance(x.target, ast.Attribute) else None)
+                    if tgt is None:
+                        continue
+                    if isinstance(tgt.value, ast.Name) and tgt.value.id == 'self':
+                        if fn.name not in ('__init__', '__new__'):
+                            fam_rebound.setdefault(c.name, set()).add(tgt.attr)
+                    else:
+                        other.add(tgt.attr)
+        for t in trees:
+            for fn in [n for n in ast.walk(t) if isinstance(n, (ast.FunctionDef, ast.AsyncFunctionDef)) and id(n) not in in_class]:
+                for x in ast.walk(fn):
+                    tgt = x if isinstance(x, ast.Attribute) and not isinstance(x.ctx, ast.Load) else (x.target if isinstance(x, ast.AugAssign) and isinstance(x.target, ast.Attribute) else None)
+                    if tgt is not None and not (isinstance(tgt.value, ast.Name) and tgt.value.id == 'self' and any(fn is m for c in classes for m in ast.walk(c))):
+                        other.add(tgt.attr)
+        fams = {}
+        for cn, attrs in fam_rebound.items():
+            fams.setdefault(find(cn), set()).update(attrs)
+        cls.FAMILY = {c.name: fams.get(find(c.name), set()) for c in classes}
+        cls.OTHER = other
+
+    FAMILY = {}
+    OTHER = set()
+    cur_class = None
+
+    def _attr_stable(self, a, seen=(), on_self=False):
+        if on_self and self.cur_class in self.FAMILY:
+            if a in self.FAMILY[self.cur_class] or a in self.OTHER:
+                return False
+        elif a in self.REBOUND:
+            return False
+        if a in self.PROPS:
+            und = self.PROPS[a]
+            if und is None:
+                return False
+            return all(u == a or u in seen or self._attr_stable(u, seen + (a,)) for u in und)
+        return True
 
     def _binding_stable(self, v):
         """The expression denotes the same value whenever it is evaluated during one call: it reads only attributes
-        that are bound once (in __init__) - directly or through a trivial property - and does not look inside a
-        container (in / not in)."""
+        that are bound once (in __init__) - directly or through a property that just returns such an attribute chain -
+        and does not look inside a container (in / not in)."""
         for x in ast.walk(v):
             if isinstance(x, ast.Attribute):
-                a = x.attr
-                if a in self.PROPS:
-                    a = self.PROPS[a]
-                    if a is None:
-                        return False
-                if a in self.REBOUND:
+                if not self._attr_stable(x.attr, on_self=isinstance(x.value, ast.Name) and x.value.id == 'self'):
                     return False
             elif isinstance(x, (ast.In, ast.NotIn)):
                 return False
         return True
 
     def run(self, tree):
+        owner = {}
+        for c in [n for n in ast.walk(tree) if isinstance(n, ast.ClassDef)]:
+            for fn in ast.walk(c):
+                if isinstance(fn, (ast.FunctionDef, ast.AsyncFunctionDef)):
+                    owner.setdefault(id(fn), c.name)
         for fn in [n for n in ast.walk(tree) if isinstance(n, (ast.FunctionDef, ast.AsyncFunctionDef))]:
+            self.cur_class = owner.get(id(fn))
             for _ in range(60):
                 if not self._function(fn):
                     break
@@ -738,8 +837,196 @@ def _as_load(t):
     return t2
 
 
+class _ListOps:
+    """L.extend(X) as a statement  ->  L += X     for a local L that is only ever bound to list displays / list(...) in its
+    function (for a list the two are the same operation); the package's own spelling is the augmented assignment."""
+
+    def run(self, tree):
+        for fn in [n for n in ast.walk(tree) if isinstance(n, (ast.FunctionDef, ast.AsyncFunctionDef))]:
+            lists, other = set(), set()
+            for n in ast.walk(fn):
+                if isinstance(n, ast.Assign):
+                    for t in n.targets:
+                        if isinstance(t, ast.Name):
+                            is_list = isinstance(n.value, (ast.List, ast.ListComp)) or (isinstance(n.value, ast.Call) and isinstance(n.value.func, ast.Name) and n.value.func.id == 'list')
+                            (lists if is_list else other).add(t.id)
+                        else:
+                            for x in ast.walk(t):
+                                if isinstance(x, ast.Name):
+                                    other.add(x.id)
+                elif isinstance(n, (ast.For, ast.AsyncFor, ast.comprehension)):
+                    for x in ast.walk(n.target):
+                        if isinstance(x, ast.Name):
+                            other.add(x.id)
+                elif isinstance(n, ast.arg):
+                    other.add(n.arg)
+            ok = lists - other
+            if not ok:
+                continue
+            for n in ast.walk(fn):
+                for f in ('body', 'orelse', 'finalbody'):
+                    b = getattr(n, f, None)
+                    if not (isinstance(b, list) and b and isinstance(b[0], ast.stmt)):
+                        continue
+                    for i, st in enumerate(b):
+                        if isinstance(st, ast.Expr) and isinstance(st.value, ast.Call) and isinstance(st.value.func, ast.Attribute) and st.value.func.attr == 'extend' \
+                                and isinstance(st.value.func.value, ast.Name) and st.value.func.value.id in ok and len(st.value.args) == 1 and not st.value.keywords:
+                            b[i] = ast.copy_location(ast.AugAssign(target=ast.Name(id=st.value.func.value.id, ctx=ast.Store()), op=ast.Add(), value=st.value.args[0]), st)
+        return tree
+
+
+class _ClosureToContainer:
+    """def h(): return f(a, b, k=c)      ->   h = FunctionContainer(f, a, b, k=c)
+    for a nested parameterless function whose body is that one call, where f is a name or self.<method> and every argument
+    is a constant or a name of the enclosing function that is not assigned again after the definition (so binding the
+    values now or when h() runs is the same).  The package's spelling of "call this later" is the canonical one."""
+
+    def run(self, tree):
+        for fn in [n for n in ast.walk(tree) if isinstance(n, (ast.FunctionDef, ast.AsyncFunctionDef))]:
+            for n in ast.walk(fn):
+                for f in ('body', 'orelse', 'finalbody'):
+                    b = getattr(n, f, None)
+                    if not (isinstance(b, list) and b and isinstance(b[0], ast.stmt)):
+                        continue
+                    for i, st in enumerate(b):
+                        if not (isinstance(st, ast.FunctionDef) and st is not fn and not st.decorator_list):
+                            continue
+                        a = st.args
+                        if a.args or a.posonlyargs or a.kwonlyargs or a.vararg or a.kwarg:
+                            continue
+                        body = [x for x in st.body if not (isinstance(x, ast.Expr) and isinstance(x.value, ast.Constant))]
+                        if len(body) != 1 or not isinstance(body[0], (ast.Return, ast.Expr)) or not isinstance(body[0].value, ast.Call):
+                            continue
+                        c = body[0].value
+                        fx = c.func
+                        if not (isinstance(fx, ast.Name) or (isinstance(fx, ast.Attribute) and isinstance(fx.value, ast.Name) and fx.value.id == 'self')):
+                            continue
+                        vals = list(c.args) + [k.value for k in c.keywords]
+                        if any(k.arg is None for k in c.keywords) or not all(isinstance(v, (ast.Name, ast.Constant)) for v in vals):
+                            continue
+                        free = {v.id for v in vals if isinstance(v, ast.Name)} | ({fx.id} if isinstance(fx, ast.Name) else set())
+                        pos = (st.lineno, st.col_offset)
+                        later_store = any(isinstance(x, ast.Name) and not isinstance(x.ctx, ast.Load) and x.id in free and hasattr(x, 'lineno')
+                                          and (x.lineno, x.col_offset) > pos and not any(x is y for y in ast.walk(st)) for x in ast.walk(fn))
+                        in_loop = any(isinstance(l, (ast.For, ast.While)) and any(st is y for y in ast.walk(l)) for l in ast.walk(fn))
+                        if later_store or in_loop:
+                            continue
+                        call = ast.Call(func=ast.Name(id='FunctionContainer', ctx=ast.Load()), args=[fx] + list(c.args), keywords=list(c.keywords))
+                        b[i] = ast.copy_location(ast.Assign(targets=[ast.Name(id=st.name, ctx=ast.Store())], value=call), st)
+                        ast.fix_missing_locations(b[i])
+        return tree
+
+
+class _UnrollLiteralLoops:
+    """for x in (a, b, c): BODY   ->   BODY[x:=a] ; BODY[x:=b] ; BODY[x:=c]
+    for a display (or a local bound once to a display and used only as this loop's iterable) of at most six elements that
+    are constants, names or attribute chains bound once (so reading them when the tuple is built or when the body runs is
+    the same); the body has no break / continue, the loop no else, and the target is a plain name not read after the loop."""
+
+    def run(self, tree):
+        import copy
+        pl = _PureLocals()
+        owner = {}
+        for c in [n for n in ast.walk(tree) if isinstance(n, ast.ClassDef)]:
+            for fn in ast.walk(c):
+                if isinstance(fn, (ast.FunctionDef, ast.AsyncFunctionDef)):
+                    owner.setdefault(id(fn), c.name)
+        for fn in [n for n in ast.walk(tree) if isinstance(n, (ast.FunctionDef, ast.AsyncFunctionDef))]:
+            pl.cur_class = owner.get(id(fn))
+            stores, loads = {}, {}
+            for n in ast.walk(fn):
+                if isinstance(n, ast.Name):
+                    d = loads if isinstance(n.ctx, ast.Load) else stores
+                    d[n.id] = d.get(n.id, 0) + 1
+            for n in ast.walk(fn):
+                for f in ('body', 'orelse', 'finalbody'):
+                    b = getattr(n, f, None)
+                    if not (isinstance(b, list) and b and isinstance(b[0], ast.stmt)):
+                        continue
+                    i = 0
+                    while i < len(b):
+                        st = b[i]
+                        disp, drop = None, None
+                        if isinstance(st, ast.For) and isinstance(st.target, ast.Name) and not st.orelse:
+                            if isinstance(st.iter, (ast.Tuple, ast.List)):
+                                disp = st.iter
+                            elif isinstance(st.iter, ast.Name) and i > 0 and stores.get(st.iter.id) == 1 and loads.get(st.iter.id) == 1:
+                                prev = b[i - 1]
+                                if isinstance(prev, ast.Assign) and len(prev.targets) == 1 and isinstance(prev.targets[0], ast.Name) and prev.targets[0].id == st.iter.id \
+                                        and isinstance(prev.value, (ast.Tuple, ast.List)):
+                                    disp, drop = prev.value, i - 1
+                        if disp is None or not (1 <= len(disp.elts) <= 6):
+                            i += 1
+                            continue
+                        simple = all(isinstance(e, (ast.Constant, ast.Name)) or (isinstance(e, ast.Attribute) and pl._binding_stable(e)
+                                                                                 and all(isinstance(x, (ast.Attribute, ast.Name, ast.expr_context)) for x in ast.walk(e)))
+                                     for e in disp.elts)
+                        t = st.target.id
+                        bad = any(isinstance(x, (ast.Break, ast.Continue, ast.FunctionDef, ast.Lambda)) for s_ in st.body for x in ast.walk(s_)) \
+                            or any(isinstance(x, ast.Name) and x.id == t and not isinstance(x.ctx, ast.Load) for s_ in st.body for x in ast.walk(s_))
+                        used_after = any(isinstance(x, ast.Name) and x.id == t and hasattr(x, 'lineno') and (x.lineno, x.col_offset) > (st.end_lineno or st.lineno, st.end_col_offset or 0)
+                                         for x in ast.walk(fn)) or stores.get(t, 0) != 1
+                        if not simple or bad or used_after:
+                            i += 1
+                            continue
+                        out = []
+                        for e in disp.elts:
+                            class S(ast.NodeTransformer):
+                                def visit_Name(self, node, e=e):
+                                    return copy.deepcopy(e) if node.id == t and isinstance(node.ctx, ast.Load) else node
+                            out += [S().visit(copy.deepcopy(s_)) for s_ in st.body]
+                        for o in out:
+                            ast.fix_missing_locations(ast.copy_location(o, st))
+                        if drop is not None:
+                            b[drop:i + 1] = out
+                            i = drop + len(out)
+                        else:
+                            b[i:i + 1] = out
+                            i += len(out)
+        return tree
+
+
+class _StoreThroughTemp:
+    """t = E(self.a) ; self.a = t   ->   self.a = E(self.a) ; t = self.a       (t a local stored once in its function)
+    The attribute is updated through a temporary that is then used in its place; afterwards the pure-local propagation
+    reads `t` as `self.a` wherever nothing can have changed the attribute in between, and `self.a = self.a + 1` is the
+    augmented assignment again."""
+
+    def run(self, tree):
+        for fn in [n for n in ast.walk(tree) if isinstance(n, (ast.FunctionDef, ast.AsyncFunctionDef))]:
+            stores = {}
+            for n in ast.walk(fn):
+                if isinstance(n, ast.Name) and not isinstance(n.ctx, ast.Load):
+                    stores[n.id] = stores.get(n.id, 0) + 1
+            for n in ast.walk(fn):
+                for f in ('body', 'orelse', 'finalbody'):
+                    b = getattr(n, f, None)
+                    if not (isinstance(b, list) and b and isinstance(b[0], ast.stmt)):
+                        continue
+                    for i in range(len(b) - 1):
+                        s1, s2 = b[i], b[i + 1]
+                        if isinstance(s1, ast.Assign) and len(s1.targets) == 1 and isinstance(s1.targets[0], ast.Name) and stores.get(s1.targets[0].id) == 1 \
+                                and isinstance(s2, ast.Assign) and len(s2.targets) == 1 and isinstance(s2.targets[0], ast.Attribute) \
+                                and isinstance(s2.targets[0].value, ast.Name) and s2.targets[0].value.id == 'self' \
+                                and isinstance(s2.value, ast.Name) and s2.value.id == s1.targets[0].id \
+                                and not any(isinstance(x, ast.Name) and x.id == s1.targets[0].id for x in ast.walk(s1.value)) \
+                                and any(isinstance(x, ast.Attribute) and x.attr == s2.targets[0].attr and isinstance(x.value, ast.Name) and x.value.id == 'self'
+                                        for x in ast.walk(s1.value)):
+                            # (a read-modify-write of the attribute through a temporary: E itself reads self.a)
+                            attr_load = ast.Attribute(value=ast.Name(id='self', ctx=ast.Load()), attr=s2.targets[0].attr, ctx=ast.Load())
+                            b[i] = ast.copy_location(ast.Assign(targets=[s2.targets[0]], value=s1.value), s1)
+                            b[i + 1] = ast.copy_location(ast.Assign(targets=[s1.targets[0]], value=attr_load), s2)
+                            ast.fix_missing_locations(b[i])
+                            ast.fix_missing_locations(b[i + 1])
+        return tree
+
+
 def canonicalise(tree):
     if isinstance(tree, ast.Module):
+        tree = _ListOps().run(tree)
+        tree = _ClosureToContainer().run(tree)
+        tree = _UnrollLiteralLoops().run(tree)
+        tree = _StoreThroughTemp().run(tree)
         tree = _PureLocals().run(tree)
         tree = _StmtIfExp().run(tree)
         tree = _CompToLoop().run(tree)
